@@ -613,6 +613,29 @@ def run_c18(argv):
                                       f"with the species {back4}", input=show, allowed=names)
             if k == 0:
                 chk.sample({"input_format": fmt, "written": t1.split("\n")[0]})
+    # a network that holds no reaction (an empty one, one with required species only, one whose allowed list keeps nothing): what it
+    # writes reads back as a network without reactions
+    for label, mk_net in (("empty", lambda: Network()), ("required-only", lambda: Network(required_species=["H", "He"])),
+                          ("all-filtered", lambda: Network(filelist=[str(chk.scratch / "in-naunet0.txt")], fileformats=["naunet"],
+                                                           allowed_species=["Xe"]))):
+        w5 = chk.scratch / f"w5-{label}.naunet"
+        try:
+            with silenced():
+                reset_species_state()
+                e_net = mk_net()
+                n_held = len(e_net.reaction_list)
+                e_net.write(w5, "naunet")
+            back5 = read_network("naunet", w5)
+            n_back = len(back5.reaction_list)
+        except Exception as e:
+            chk.hist["empty-write-refused:" + type(e).__name__] += 1
+            continue
+        chk.count(("empty-write", label), nontrivial=True)
+        chk.hist["empty-write"] += 1
+        if n_held != 0 or n_back != 0:
+            chk.violation({"kind": "empty-network-roundtrip", "case": label},
+                          f"a network without reactions ({label}: {n_held} held) written in the native format reads back with {n_back} "
+                          f"reaction(s)", written=w5.read_text()[:300])
     # export + re-render of whole projects (files *and* configuration): the C20 machinery on descriptions that carry rate
     # modifiers (numbers and expressions), so that what the exported project computes is compared with the direct rendering
     from . import c20
